@@ -5,6 +5,9 @@ import MelModel.Lemmas.Pools
 import MelModel.Props.C20
 namespace Mel
 open Mel.Gen
+-- (`Faithful` lives in `Mel.TotalSealL`: the name also occurs in Props/C01Seal.lean)
+namespace TotalSealL end TotalSealL
+open TotalSealL
 
 /-! ### generic: a fold whose every step succeeds, with an invariant that may mention the remaining list -/
 
@@ -486,7 +489,7 @@ theorem mtsqrt_pos {a b : Nat} (ha : 0 < a) (hb : 0 < b) : 0 < mtsqrt a b := by
 /-! ### the coin invariant carried through the swap and deposit phases -/
 
 /-- a coin sitting at an output slot of a transaction of the block is locked by that output's covenant -/
-def Faithful (txs : List Tx) (m : CoinMap) : Prop :=
+def TotalSealL.Faithful (txs : List Tx) (m : CoinMap) : Prop :=
   ∀ tx ∈ txs, ∀ i o c, tx.outputs[i]? = some o → m.getCoin ⟨tx.hash, i⟩ = some c →
     c.coinData.covhash = o.covhash
 
